@@ -166,8 +166,11 @@ def normalise(rel, fn, qual):
     pairs = []
     same_sig = sum(1 for c, r in zip(cur, ref) if c[1] == r[1])
     if len(cur) == len(ref) and same_sig >= 0.6 * len(cur):
-        # a pure renaming: the binding statements line up one to one
-        pairs = list(zip(cur_names, ref_names))
+        # a pure renaming: the binding statements line up one to one; a pair whose binding statements are not
+        # alike is left alone (the local has a new definition AND a new name: giving it the reference name would
+        # make name-keyed rules speak about a different variable)
+        pairs = [(c[0], r[0]) for c, r in zip(cur, ref)
+                 if c[1] == r[1] or difflib.SequenceMatcher(a=c[1], b=r[1], autojunk=False).ratio() >= 0.6]
     else:
         sm = difflib.SequenceMatcher(a=[c[1] for c in cur], b=[r[1] for r in ref], autojunk=False)
         for blk in sm.get_matching_blocks():
